@@ -75,11 +75,29 @@ def _make_env(P, sandboxed, is_async, ae, lc):
     from jinja2.sandbox import SandboxedEnvironment
 
     cls = SandboxedEnvironment if sandboxed else jinja2.Environment
-    return cls(
+    env = cls(
         loader=jinja2.DictLoader(P.templates), enable_async=is_async, autoescape=ae,
         extensions=["jinja2.ext.loopcontrols"] if lc else [],
         bytecode_cache=CodeMemo(("c38", sandboxed, is_async, ae, lc)),
     )
+    env.globals["gf"] = GlobalProbe()
+    env.globals["gn"] = 3
+    return env
+
+
+class GlobalProbe:
+    """Environment-level global callable: its calls are data events of whichever render is running
+    (reachable from modules imported without context, i.e. while a cached module is being built)."""
+
+    def __init__(self) -> None:
+        self.ev = None
+
+    def __call__(self, x=0):
+        if self.ev is not None:
+            self.ev.ev("gcall")
+        from sim import workload as W
+
+        return W.f1(x) + 1
 
 
 def _render_once(env, is_async, entry, api, data, tape):
@@ -144,7 +162,7 @@ def run(tape: Tape) -> Outcome:
     ae = bool(tape.draw(2))
     lc = bool(tape.draw(2))
     size = 2 + tape.draw(4)
-    P = Gen(tape, is_async=is_async, probe=True, loopcontrols=lc, size=size).generate()
+    P = Gen(tape, is_async=is_async, probe=True, loopcontrols=lc, size=size, env_globals=True).generate()
     nr = 3 + tape.draw(4)
     hist = []
     for _ in range(nr):
@@ -169,7 +187,9 @@ def run(tape: Tape) -> Outcome:
             key = (entry, api, dseed)
             if key not in refs:
                 renv = _make_env(P, sandboxed, is_async, ae, lc)
-                rdata = make_probe_data(dseed, PEvents(), is_async=is_async, tape=zero)
+                rev = PEvents()
+                renv.globals["gf"].ev = rev
+                rdata = make_probe_data(dseed, rev, is_async=is_async, tape=zero)
                 refs[key] = _key(_render_once(renv, is_async, entry, api, rdata, zero))
             return refs[key]
 
@@ -183,6 +203,7 @@ def run(tape: Tape) -> Outcome:
             if k:
                 exc = PrivateFault("injected") if exck == 0 else PrivateAbort("injected")
             ev = PEvents(fault_at=k, exc=exc)
+            env.globals["gf"].ev = ev
             data = make_probe_data(dseed, ev, is_async=is_async, tape=tape)
             try:
                 res = _render_once(env, is_async, entry, api, data, tape)
